@@ -662,7 +662,7 @@ impl Prop for C13 {
     type Case = Case;
     const ID: &'static str = "C13";
     const NUM: u64 = 13;
-    const RULE: &'static str = "API programs = (representation, base digraph of order 1..8 incl. non-contiguous AdjacencyMap vertex sets, 1..6 calls) over every public entry point: mutators, every query, predicates and relations, complement/converse/union/filter_vertices, every From conversion and From<rows|arcs> (self-loops, out-of-range heads, empty, usize::MAX ids), every generator (orders 0..8, p incl. NaN / out of range; AdjacencyMatrix::empty at orders whose square overflows followed by add_arc/has_arc/toggle/remove_arc), Bfs/BfsDist/BfsPred/Dfs/DfsDist/DfsPred/Dijkstra/DijkstraDist/DijkstraPred with 0..3 sources and every consumer (collect, distances, predecessors, shortest_path, cycles, stepping, a clone consumed after the original is dropped, user predicates that panic), BellmanFordMoore, FloydWarshall, DistanceMatrix (new, metrics, Index/IndexMut in and out of range, tampered pub fields), Tarjan, Johnson75, PredecessorTree (entries in and out of range), Xoshiro256StarStar; vertex arguments range over in-range ids, order, order+1, 1000, usize::MAX. Legs: systematic sweep (every entry point x every argument class x 21 base digraphs) and random programs, both in a child process built with AddressSanitizer + std unsafe-precondition checks; the sweep again in the plain release build with the counting-allocator leak meter. Outcome of every call must be return or unwinding panic; the digraph must stay structurally valid. A CPU-count segment repeats every thread-relevant call under 1, 2 and 3 CPUs on wider bases, including stars with rows of 255/256/257 out-neighbours; random programs run under a generated CPU count. Non-trivial = the program has a vertex argument outside V or a non-contiguous base, and a call that reaches an unsafe block; distinct = distinct serialised program.";
+    const RULE: &'static str = "API programs = (representation, base digraph of order 1..8 incl. non-contiguous AdjacencyMap vertex sets, 1..6 calls) over every public entry point: mutators, every query, predicates and relations, complement/converse/union/filter_vertices, every From conversion and From<rows|arcs> (self-loops, out-of-range heads, empty, usize::MAX ids), every generator (orders 0..8, p incl. NaN / out of range; AdjacencyMatrix::empty at orders whose square overflows followed by add_arc/has_arc/toggle/remove_arc), Bfs/BfsDist/BfsPred/Dfs/DfsDist/DfsPred/Dijkstra/DijkstraDist/DijkstraPred with 0..3 sources and every consumer (collect, distances, predecessors, shortest_path, cycles, stepping, a clone consumed after the original is dropped, user predicates that panic), BellmanFordMoore, FloydWarshall, DistanceMatrix (new, metrics, Index/IndexMut in and out of range, tampered pub fields), Tarjan, Johnson75, PredecessorTree (entries in and out of range, built through eight public routes incl. growing / truncating the public field), AdjacencyListWeighted with the weight types (), Box<u32>, String, [u64; 4], u8 (add / overwrite / remove / clone / converse / From<rows>), Xoshiro256StarStar; source, row and arc iterators report an exact, an honest-but-loose or a lying size_hint (upper bound too small, lower bound too large); vertex arguments range over in-range ids, order, order+1, 1000, usize::MAX. Legs: systematic sweep (every entry point x every argument class x 21 base digraphs) and random programs, both in a child process built with AddressSanitizer + std unsafe-precondition checks; the sweep again in the plain release build with the counting-allocator leak meter. Outcome of every call must be return or unwinding panic; the digraph must stay structurally valid. A CPU-count segment repeats every thread-relevant call under 1, 2 and 3 CPUs on wider bases, including stars with rows of 255/256/257 out-neighbours; random programs run under a generated CPU count. Non-trivial = the program has a vertex argument outside V or a non-contiguous base, and a call that reaches an unsafe block; distinct = distinct serialised program.";
     const ASSUMPTIONS: &'static [&'static str] = &[
         "any unwinding Rust panic is accepted as 'the documented panic' (whether its text is documented cannot be judged mechanically)",
         "allocation-heavy arguments (huge orders whose square does not overflow) are excluded so that out-of-memory cannot masquerade as a finding; process-level OOM is exit 2",
